@@ -44,6 +44,9 @@ def run(idx: Index, rep: Report, tier: str):
     check_sibling_routes(idx, rep)
     check_route_totality(idx, rep)
     check_parity_skeleton(idx, rep)
+    check_stateless_evaluation(idx, rep, tier)
+    from ..rules.chunks import check_chunk_sum
+    check_chunk_sum(rep, "K9.shot-conservation", idx.function(f"{BACKEND}::Backend._statevector_to_frequencies"), "self.n_shots")
 
 
 # ---------------------------------------------------------------------------------------------------
@@ -379,3 +382,42 @@ def _signs(term):
         ones = sum(1 for q, _ in term if key[q] == "1")
         out.append(-1 if ones % 2 else 1)
     return out
+
+
+def check_stateless_evaluation(idx: Index, rep: Report, tier: str):
+    """an evaluation entry point keeps nothing derived from the operator it was given on the backend object: a value cached across calls
+    would go stale as soon as the (mutable) operator object is changed in place.  Decided with the alias analysis: no store into an
+    attribute of `self` whose value may reach the operator argument."""
+    rule = "K1.stateless-evaluation"
+    from ..alias import Analyzer, is_P
+    an = Analyzer(idx, max_depth=6)
+    backend = idx.cls(f"{BACKEND}::Backend")
+    subs = [c for c in idx.subclasses(backend)]
+    if tier == "quick":
+        subs = [c for c in subs if c.name in ("CirqSimulator", "SympySimulator")]
+    n = 0
+    for c in sorted(subs, key=lambda c: c.name):
+        for mname in ("get_expectation_value", "get_variance", "get_standard_error", "_get_expectation_value_from_statevector",
+                      "_get_expectation_value_from_frequencies", "_get_variance_from_frequencies", "expectation_value_from_prepared_state"):
+            m = idx.find_method(c, mname)
+            if m is None or "qubit_operator" not in m.params:
+                continue
+            fa = an.analyze(m, c)
+            n += 1
+            bad = []
+            for ev in fa.events:
+                if is_P(ev.obj) and ev.obj[1] == "self" and ev.kind in ("attr", "subscript", "method"):
+                    reach = fa.closure(ev.value)
+                    if any(is_P(o) and o[1] == "qubit_operator" for o in reach):
+                        bad.append(ev)
+            label = f"{c.name}.{mname}"
+            if not bad:
+                rep.ok(rule, (m.module.relpath, label), m.node, text=f"{label}: nothing derived from the operator is kept on the backend",
+                       what="evaluating an operator leaves no operator-derived state on the backend (no cache that could go stale)")
+            for ev in bad[:2]:
+                from ..rules.purity import _stmt_of
+                rep.violation(rule, (m.module.relpath, label), ev.node, text=f"{label}: {norm(_stmt_of(m, ev.node))}",
+                              what="evaluating an operator leaves no operator-derived state on the backend (no cache that could go stale)",
+                              reason=f"{ev.describe()} keeps a value derived from the operator argument on the backend object: a later call with the same "
+                                     f"(in-place modified) operator object can see the stale value")
+    rep.floor("stateless evaluation entry points", n, 10)
